@@ -81,6 +81,8 @@ type c07job struct {
 	wraps []*c07wrapCase
 	disps []*c07dispCase
 	sess  []*c07sessCase
+	stmts []*c07stmtCase
+	echos []*c07echoCase
 	count map[string]int
 	evals int
 	refs  int
@@ -990,6 +992,8 @@ func runC07(args []string) error {
 	dump := fs.Bool("dump", false, "print every case whose observation differs from the reference")
 	show := fs.Int("show", 0, "print the script of this case id")
 	enum := fs.Bool("enum", false, "exploration: run the whole parameter space of the embedded-interface stream and print the outcomes")
+	enumq := fs.Bool("enumq", false, "exploration: run every argument-expression-shape cell and print the outcomes")
+	enumr := fs.Bool("enumr", false, "exploration: run every go/defer form x callee kind x argument kind and print the outcomes")
 	child := fs.Int("child", -1, "internal: run only this scenario and print what the host observed")
 	fs.Parse(args)
 	if err := os.MkdirAll(*out, 0o755); err != nil {
@@ -1003,6 +1007,14 @@ func runC07(args []string) error {
 	}
 	if *enum {
 		h.enumE()
+		return nil
+	}
+	if *enumq {
+		h.enumQ()
+		return nil
+	}
+	if *enumr {
+		h.enumStmts()
 		return nil
 	}
 	root := newRng(*seed)
@@ -1075,6 +1087,24 @@ func runC07(args []string) error {
 						fmt.Printf("  why:  %s\n", v.BadMsg)
 						break
 					}
+				}
+			}
+		}
+	}
+	for _, j := range jobs {
+		for _, c := range j.echos {
+			if cls := c.q.class(c.impl, c.fail); cls != c.q.gEcho() {
+				bad++
+				if *dump {
+					fmt.Printf("---- echo region=%q %s class=%s echo=%q %s\n", c.region, c.q.key(), cls, c.impl, c.fail)
+				}
+			}
+		}
+		for _, c := range j.stmts {
+			if c.impl != "first" {
+				bad++
+				if *dump {
+					fmt.Printf("---- stmt region=%q %s got %v\n", c.region, c.g.key(), c.input["received"])
 				}
 			}
 		}
